@@ -414,8 +414,48 @@ def odeint_part(ctx: Ctx, bins, cov: dict):
         cov["samples"].append({"kind": "odeint run", "trace": traces[len(traces) // 2]})
 
 
+def apalache_unbounded(ctx: Ctx, cov: dict):
+    """Unbounded safety of Solve.tla: an inductive invariant for EVERY T >= 1 discharged by Apalache (APA_Solve.tla); the seeded
+    design variants must each break one obligation.  TLC stays the deciding tool for the bounded instances, liveness and traces."""
+    import shutil
+    if not shutil.which("apalache-mc"):
+        ctx.notes.append("apalache-mc not on PATH: the unbounded inductive check of Solve.tla was skipped (TLC results are bounded in T)")
+        return
+    spec_dir = Path(__file__).parent.parent / "spec"
+    jobs = [("asis", a, b, c) for a, b, c in (("Init", "IndInv", 0), ("IndInit", "IndInv", 1), ("IndInit", "Clauses", 0), ("IndInit", "StepClauses", 1))]
+    jobs += [(v, "IndInit", "IndInv", 1) for v in ("skip_dt_sub", "reset_keeps_dt", "success_after_last_level", "no_log")]
+    jobs += [("swallow_unrecoverable", "IndInit", "StepClauses", 1)]
+
+    def one(job):
+        v, init, inv, length = job
+        d = ctx.sub(f"apa_{v}_{inv}_{length}")
+        shutil.copy(spec_dir / "Solve.tla", d / "Solve.tla")
+        (d / "APA_Solve.tla").write_text((spec_dir / "APA_Solve.tla").read_text().replace('Variant <- "asis"', f'Variant <- "{v}"'))
+        p = subprocess.run(["apalache-mc", "check", "--cinit=ConstInit", f"--init={init}", f"--inv={inv}", f"--length={length}", f"--out-dir={d / 'out'}",
+                            "APA_Solve.tla"], cwd=d, capture_output=True, text=True, timeout=1200)
+        out = p.stdout + p.stderr
+        return job, ("EXITCODE: OK" in out), ("The outcome is: Error" in out), out[-1500:]
+    with ThreadPoolExecutor(5) as ex:
+        res = list(ex.map(one, jobs))
+    held = 0
+    for (v, init, inv, length), ok, cex, tail in res:
+        if not ok and not cex:
+            raise MachineryError(f"apalache did not decide {v}/{init}/{inv}: {tail}")
+        if v == "asis":
+            if not ok:
+                ctx.violation(f"C19|Design|Unbounded|{inv}", f"Apalache: obligation {init} => {inv} (length {length}) of the inductive proof fails for some T", {"apalache": tail})
+            else:
+                held += 1
+        elif ok:
+            raise MachineryError(f"vacuity guard: seeded design variant {v} passes the inductive obligation {inv}")
+    cov["unbounded_inductive_obligations_held"] = held
+    cov["unbounded_inductive_variants_rejected"] = len(jobs) - 4
+    cov["unbounded_in"] = "T (every requested interval >= 1 tick), ladder constants as coded (5 levels x 10*level sub-steps); Apalache 0.58"
+
+
 def main(ctx: Ctx) -> int:
     cov: dict = {"samples": []}
+    apalache_unbounded(ctx, cov)
     # (A) model checking of the design
     cfgs = ["MC_Solve_quick.cfg"] if ctx.quick else ["MC_Solve_quick.cfg", "MC_Solve_thorough.cfg"]
     states = trans = 0
